@@ -125,7 +125,15 @@ class TCPTransport(KNXIPTransport):
                     self.remote_hpai,
                     knxipframe,
                 )
-                self.handle_knxipframe(knxipframe, self.remote_hpai)
+                try:
+                    self.handle_knxipframe(knxipframe, self.remote_hpai)
+                except CouldNotParseKNXIP as couldnotparseknxip:
+                    # eg. a SecureWrapper received before the secure session is initialized
+                    knx_logger.debug(
+                        "Discarding KNXIPFrame from %s: %s",
+                        self.remote_hpai,
+                        couldnotparseknxip.description,
+                    )
             # parse data after current KNX/IP frame
             raw = next_frame_part
 
